@@ -22,6 +22,7 @@ struct SockClientThread : public Thread
 	{
 		_server->serve(_client);
 		_client.close();
+		ASL_VERIF_POINT(21, _server);
 		--_server->_numClients;
 	}
 };
@@ -113,19 +114,23 @@ void SocketServer::startLoop()
 			for (int i = 0; i < n; i++)
 			{
 				Socket client = _sockets.activeAt(i).accept();
+				ASL_VERIF_POINT(20, this);
 				++_numClients;
 				if (_sequential) {
 					serve(client);
 					client.close();
+					ASL_VERIF_POINT(21, this);
 					--_numClients;
 				}
 				else
 					new SockClientThread(this, client);
 			}
 		}
+		ASL_VERIF_POINT(23, this);
 		if(_requestStop || n < 0)
 		{
 			_running = false;
+			ASL_VERIF_POINT(22, this);
 			break;
 		}
 		
